@@ -130,10 +130,6 @@ class GPO(Algorithm):
             else:
                 point = self.goodx
 
-            if self.counter >= 2 * self.half_phase_length:
-                self.phase += 1
-                self.counter = 0
-
         return point
 
     def receive_reward(self, time, reward):
@@ -153,10 +149,6 @@ class GPO(Algorithm):
         """
         if self.phase > self.N:  # If already finished
             pass
-        elif self.phase == self.N:
-            maxind = np.argmax(np.array(self.V_reward))
-            self.goodx = self.V_x[maxind]
-
         else:
             if self.counter < self.half_phase_length:
                 self.curr_algo.receive_reward(time, reward)
@@ -167,7 +159,14 @@ class GPO(Algorithm):
                     + reward
                 ) / (self.counter - self.half_phase_length + 1)
 
-        self.counter += 1
+            self.counter += 1
+            # The phase ends once its last reward has arrived
+            if self.counter >= 2 * self.half_phase_length:
+                self.phase += 1
+                self.counter = 0
+                if self.phase > self.N:
+                    maxind = np.argmax(np.array(self.V_reward))
+                    self.goodx = self.V_x[maxind]
 
     def get_last_point(self):
         """
